@@ -46,13 +46,35 @@ theorem mp4_load_leaves_file_untouched (e : Env) (s : FS) (r : Except PyErr Load
     s'.data = s.data :=
   noWrite_loadM e s r s' h
 
+/-- the ok-direction: a normal return of `MP4(fileobj)` in ANY environment — whatever it would have injected at other
+calls, whatever reads it would have cut short — returns exactly the pure load of the complete bytes: the atom tree,
+the stream info and the item payloads of the whole file.  No short read is taken for the end of the file, for "no tags",
+for fewer atoms or for shorter item payloads. -/
+theorem mp4_load_ok_means_loaded (e : Env) (s s' : FS) (r : Loaded) (h : loadM e s = (.ok r, s')) :
+    loadPure s.data = .ok r :=
+  loadM_ok_means_loaded e s s' r h
+
+/-- `MP4Tags.save` WITH its reads (`saveTagsFullM`: `Atoms(fileobj)` as the program `atomsM` instead of the summary
+`peek` + `parse` of `saveTagsM`): without injected faults it continues, behind the reads, exactly as the summarised save
+does on the same bytes — so `mp4_saveM_refines`, `mp4_save_enlarge_first` (Props/C19_Mp4) hold for it as well -/
+theorem mp4_save_full_eq_summarised {e : Env} (hq : Quiet e) (B : Nat) (ilstData : Bytes) (pad : PadChoice) (s : FS) :
+    ∃ s1, s1.data = s.data ∧ saveTagsFullM B ilstData pad e s = saveTagsM B ilstData pad e s1 :=
+  saveTagsFullM_eq hq B ilstData pad s
+
+/-- C19 for the save with its reads -/
+theorem mp4_save_full_enlarge_first {e : Env} (hq : Quiet e) (B : Nat) (hB : 0 < B) (ilstData : Bytes) (pad : PadChoice) (s : FS) :
+    (∃ s', saveTagsFullM B ilstData pad e s = (.error .enospc, s') ∧ s'.data = s.data) ∨
+    (∃ s', saveTagsFullM B ilstData pad e s = (toExcept (saveTags true s.data ilstData pad).1, s') ∧
+      s'.data = (saveTags true s.data ilstData pad).2) :=
+  saveTagsFullM_q hq B hB ilstData pad s
+
 /-! ### short reads
 
 No read of the MP4 load takes a short read for the end of the file: the atom reader checks every header read for its
 8 bytes (`struct.error` → AtomError "truncated data"), decides where a container ends by `tell()`, not by reads, and
 `atom.read` compares the length it got with `datalength` ("Not enough data").  So a short read makes the load raise
-MutagenError; it never makes it see "no tags" or fewer atoms (the tie checks exactly this at every read with budgets
-0, 1, n/2; as a theorem it is the `ok`-direction of C06 for short reads, which is not proved here).  The example: on the
+MutagenError; it never makes it see "no tags" or fewer atoms: `mp4_load_ok_means_loaded` above (and the tie checks it
+at every read with budgets 0, 1, n/2).  The example: on the
 47-byte file `moov(udta(meta(ilst(©nam "abc"))))` the clean run makes 30 calls and returns the raw item payload; an
 IOError at the first, a middle and the last call, and a short read at the first header read, at a child header read and
 at the read of the item payload, all end in MutagenError; nothing is written. -/
